@@ -244,10 +244,11 @@ class Program:
                 inl = Inliner(self, ref)
                 inl.run()
                 self.inlined = inl.inlined
-            from .inline import normalise_conditional_returns, normalise_iteration, normalise_test_locals
+            from .inline import normalise_comprehension_filters, normalise_conditional_returns, normalise_iteration, normalise_test_locals
             for fi in self.functions.values():
                 if fi.parent is None:
                     normalise_iteration(fi.node)
+                    normalise_comprehension_filters(fi.node)
                     normalise_test_locals(fi.node)
                     normalise_conditional_returns(fi.node)
 
